@@ -2,7 +2,9 @@
 //!
 //! Provides time and date indication with timezone offset for time-sensitive payment processing and settlement timing.
 
-use super::swift_utils::{parse_date_yymmdd, parse_exact_length, parse_numeric, parse_time_hhmm};
+use super::swift_utils::{
+    ensure_ascii, parse_date_yymmdd, parse_exact_length, parse_numeric, parse_time_hhmm,
+};
 use crate::errors::ParseError;
 use crate::traits::SwiftField;
 use chrono::{NaiveDate, NaiveTime};
@@ -105,6 +107,8 @@ impl SwiftField for Field13C {
     where
         Self: Sized,
     {
+        ensure_ascii(input, "Field 13C")?;
+
         // Minimum: /8c/4!n1!x4!n = / + 8 + / + 4 + 1 + 4 = 18 chars minimum
         if input.len() < 10 {
             // At minimum we need /X/ + time + sign + offset
@@ -243,6 +247,8 @@ impl SwiftField for Field13D {
     where
         Self: Sized,
     {
+        ensure_ascii(input, "Field 13D")?;
+
         // Must be exactly 15 characters: 6 (date) + 4 (time) + 1 (sign) + 4 (offset)
         if input.len() != 15 {
             return Err(ParseError::InvalidFormat {
